@@ -50,6 +50,9 @@ def finish(pid, tier, seed, E, results, t0, extra=None):
         if r.get("paths") and not (_o.get("return") or _o.get("raise") or _o.get("unsupported") or _o.get("engine-error")):
             # vacuity guard: every path was cut (infeasible assumption) before it reached an exit - no postcondition was ever checked
             undecided.append("%s: none of the %d explored path(s) reaches an exit of the function - the contract was checked at no exit (vacuous)" % (r["key"], r["paths"]))
+        for p in r.get("vacuous_paths", []):
+            undecided.append("%s@%s: the assumptions collected along this path (callee postconditions, loop invariants, library contracts) are CONTRADICTORY - "
+                             "everything on it is vacuously true, so nothing was proved there" % (r["key"], p))
         for p, msg in r.get("unsupported", []):
             undecided.append("%s@%s: unsupported construct: %s" % (r["key"], p, msg))
         for p, msg in r.get("engine_errors", []):
